@@ -6,12 +6,18 @@ import (
 	"encoding/hex"
 	"fmt"
 	"sort"
+	"strconv"
 	"strings"
+	"sync"
 	"testing"
+	"time"
 
 	"github.com/jcmturner/gokrb5/v8/crypto"
 	"github.com/jcmturner/gokrb5/v8/crypto/rfc3961"
 	"github.com/jcmturner/gokrb5/v8/crypto/rfc8009"
+	"github.com/jcmturner/gokrb5/v8/kadmin"
+	"github.com/jcmturner/gokrb5/v8/keytab"
+	"github.com/jcmturner/gokrb5/v8/messages"
 	"github.com/jcmturner/gokrb5/v8/types"
 	"pgregory.net/rapid"
 
@@ -24,9 +30,9 @@ import (
 
 // Hint is one PA-data element offered by a KDC.
 type Hint struct {
-	Type   int    `json:"type"`   // 3 PA-PW-SALT, 11 PA-ETYPE-INFO, 19 PA-ETYPE-INFO2
-	Salt   string `json:"salt"`   // hex
-	Params string `json:"params"` // hex, ETYPE-INFO2 only, "" = absent
+	Type   int    `json:"type"`              // 3 PA-PW-SALT, 11 PA-ETYPE-INFO, 19 PA-ETYPE-INFO2
+	Salt   string `json:"salt"`              // hex
+	Params string `json:"params"`            // hex, ETYPE-INFO2 only, "" = absent
 	NoSalt bool   `json:"no_salt,omitempty"` // ETYPE-INFO / ETYPE-INFO2 entry without the optional salt field: the default salt applies
 }
 
@@ -188,6 +194,10 @@ func evalS2K(c Case) evid.Verdict {
 	return evid.Pass()
 }
 
+// otherPATypes are PA-DATA types that carry no string-to-key hint (PA-ENC-TIMESTAMP, PA-PK-AS-REQ/REP, PA-FX-COOKIE,
+// PA-FX-FAST, PA-ENCRYPTED-CHALLENGE, PA-PAC-OPTIONS, PA-TGS-REQ, one unassigned number).
+var otherPATypes = []int{2, 16, 17, 133, 136, 138, 167, 1, 4242}
+
 func evalPAData(c Case) evid.Verdict {
 	pw := string(unhex(c.Password))
 	cname := types.PrincipalName{NameType: 1, NameString: strings.Split(c.CName, "/")}
@@ -206,6 +216,8 @@ func evalPAData(c Case) evid.Verdict {
 				delete(e, "salt")
 			}
 			val = der.ETypeInfo.MustEncode([]any{e})
+		default:
+			val = salt // an element of another kind (timestamp, FAST, PKINIT, cookie ...): no hint at all
 		case 19:
 			e := der.M{"etype": int64(c.EType), "salt": string(salt)}
 			if h.NoSalt {
@@ -217,7 +229,7 @@ func evalPAData(c Case) evid.Verdict {
 			val = der.ETypeInfo2.MustEncode([]any{e})
 		}
 		pas = append(pas, types.PAData{PADataType: int32(h.Type), PADataValue: val})
-		if h.Type > best { // 19 (INFO2) over 11 (INFO) over 3 (PW-SALT): RFC 4120 §5.2.7.5
+		if (h.Type == 3 || h.Type == 11 || h.Type == 19) && h.Type > best { // 19 (INFO2) over 11 (INFO) over 3 (PW-SALT): RFC 4120 §5.2.7.5
 			best, chosen = h.Type, h
 		}
 	}
@@ -252,6 +264,19 @@ func evalPAData(c Case) evid.Verdict {
 			strings.Join(order, ","), key.KeyValue, key.KeyType, best, salt, params, want)
 	}
 	return evid.Pass()
+}
+
+// cheapS2K reports whether a string-to-key case costs little enough to be repeated in the concurrent tier.
+func cheapS2K(c Case) bool {
+	switch c.EType {
+	case ref.DES3, ref.RC4:
+		return true
+	}
+	if len(c.Params) != 8 {
+		return false
+	}
+	n, err := strconv.ParseUint(c.Params, 16, 32)
+	return err == nil && n > 0 && n <= 64
 }
 
 func evalGenKey(c Case) evid.Verdict {
@@ -301,6 +326,32 @@ func evalGenKey(c Case) evid.Verdict {
 	k2, _ := types.GenerateEncryptionKey(et)
 	if bytes.Equal(k.KeyValue, k2.KeyValue) {
 		return evid.Fail(sig, "two generated keys are identical")
+	}
+	// the two places where the library itself generates keys: the session key of messages.NewTicket and the subkey
+	// of a change-password request
+	kt := keytab.New()
+	if err := kt.AddEntry("HTTP/svc.example.com", "EXAMPLE.COM", "c08-service-password", time.Unix(1700000000, 0), 1, c.EType); err != nil {
+		return evid.Fail("harness", "keytab.AddEntry: %v", err)
+	}
+	now := time.Now().UTC()
+	tkt, sk, err := messages.NewTicket(types.NewPrincipalName(1, "alice"), "EXAMPLE.COM", types.NewPrincipalName(2, "HTTP/svc.example.com"), "EXAMPLE.COM",
+		types.NewKrbFlags(), kt, c.EType, 1, now, now, now.Add(time.Hour), now.Add(2*time.Hour))
+	if err != nil {
+		return evid.Fail(sig, "messages.NewTicket(etype %d): %v", c.EType, err)
+	}
+	if v := try("session key of messages.NewTicket", sk); !v.OK {
+		return v
+	}
+	req, sub, err := kadmin.ChangePasswdMsg(types.NewPrincipalName(1, "alice"), "EXAMPLE.COM", "new-password-"+c.In, tkt, sk)
+	if err != nil {
+		return evid.Fail(sig+":changepw", "kadmin.ChangePasswdMsg with a session key of etype %d: %v", c.EType, err)
+	}
+	if v := try("subkey of kadmin.ChangePasswdMsg", sub); !v.OK {
+		v.Sig += ":changepw"
+		return v
+	}
+	if _, _, err := ref.Decrypt(c.EType, sub.KeyValue, 13, req.KRBPriv.EncPart.Cipher); err != nil {
+		return evid.Fail(sig+":changepw", "the KRB-PRIV of the change-password request does not decrypt under the returned subkey (usage 13): %v", err)
 	}
 	return evid.Pass()
 }
@@ -374,7 +425,14 @@ func TestProp(t *testing.T) {
 		return
 	}
 	r.Assume("ref/krbcrypto validated against RFC 3961 A.1/A.3/A.4, RFC 3962 B, RFC 8009 A vectors and two known NT hashes at start-up; iteration parameter 0 (=2^32) excluded as not computable")
+	var pool []Case // cases that held when evaluated one at a time: re-evaluated side by side at the end
+	var poolMu sync.Mutex
 	judge := func(check string, c Case, nt string, rt *rapid.T, labels ...string) {
+		poolMu.Lock()
+		if len(pool) < 40000 && (c.Kind != "s2k" || cheapS2K(c)) {
+			pool = append(pool, c)
+		}
+		poolMu.Unlock()
 		r.Count(nt, append(labels, "kind:"+c.Kind)...)
 		r.Sample(c.Kind+"/"+strings.Join(labels, ","), c)
 		v := Eval(c)
@@ -490,14 +548,16 @@ func TestProp(t *testing.T) {
 		judge("rtk", c, "rtk|"+c.In, t, "rtk:random")
 	})
 
-	r.Rule("padata: every subset and permutation of {PA-PW-SALT, PA-ETYPE-INFO, PA-ETYPE-INFO2} (16 sequences) with pairwise different salts, each ETYPE-INFO / ETYPE-INFO2 entry with or without its optional salt field (absent = default salt; 45 sequences in all), single matching-etype entries, optional s2kparams; non-trivial = >= 2 hints")
+	r.Rule("padata: every subset and permutation of {PA-PW-SALT, PA-ETYPE-INFO, PA-ETYPE-INFO2} (16 sequences) with pairwise different salts, each ETYPE-INFO / ETYPE-INFO2 entry with or without its optional salt field (absent = default salt; 45 sequences in all), single matching-etype entries, optional s2kparams, each sequence also with one PA-DATA element of another kind (type 1, 2, 16, 17, 133, 136, 138, 167, 4242) inserted at every position; non-trivial = >= 2 hints")
 	perms := [][]int{{}, {3}, {11}, {19}, {3, 11}, {11, 3}, {3, 19}, {19, 3}, {11, 19}, {19, 11},
 		{3, 11, 19}, {3, 19, 11}, {11, 3, 19}, {11, 19, 3}, {19, 3, 11}, {19, 11, 3}}
 	type pj struct {
-		et     int32
-		perm   []int
-		k      int
-		noSalt int // bit i set: the i-th hint (if an ETYPE-INFO or ETYPE-INFO2) carries no salt
+		et      int32
+		perm    []int
+		k       int
+		noSalt  int // bit i set: the i-th hint (if an ETYPE-INFO or ETYPE-INFO2) carries no salt
+		other   int // 0 = none; otherwise an element of this other PA-DATA type is inserted at position otherAt
+		otherAt int
 	}
 	pjobs := []pj{}
 	for _, et := range ref.ETypes {
@@ -513,28 +573,39 @@ func TestProp(t *testing.T) {
 					continue
 				}
 				for k := 0; k < r.N(1, 6); k++ {
-					pjobs = append(pjobs, pj{et, p, k, mask})
+					pjobs = append(pjobs, pj{et, p, k, mask, 0, 0})
+					// the same among PA-DATA of other kinds (lower and higher type numbers, before and after the hints)
+					for pos := 0; pos <= len(p); pos++ {
+						ot := otherPATypes[(len(pjobs)+pos+k)%len(otherPATypes)]
+						pjobs = append(pjobs, pj{et, p, k, mask, ot, pos})
+					}
 				}
 			}
 		}
 	}
 	evid.Parallel(len(pjobs), 16, func(i int) {
 		j := pjobs[i]
-		lbl := fmt.Sprintf("pa/%d/%v/%d/%d", j.et, j.perm, j.k, j.noSalt)
+		lbl := fmt.Sprintf("pa/%d/%v/%d/%d/%d/%d", j.et, j.perm, j.k, j.noSalt, j.other, j.otherAt)
 		c := Case{Kind: "padata", EType: j.et, Realm: "EXAMPLE.COM", CName: "alice/admin",
 			Password: hex.EncodeToString([]byte("pässwörd-" + hex.EncodeToString(kgen.DetBytes(r.Seed(), lbl, 3))))}
 		if j.et == ref.RC4 {
 			c.Password = hex.EncodeToString([]byte("password-" + hex.EncodeToString(kgen.DetBytes(r.Seed(), lbl, 3))))
 		}
 		for hi, ty := range j.perm {
+			if j.other != 0 && j.otherAt == hi {
+				c.Hints = append(c.Hints, Hint{Type: j.other, Salt: hex.EncodeToString(kgen.DetBytes(r.Seed(), lbl+"/o", 12))})
+			}
 			h := Hint{Type: ty, NoSalt: j.noSalt&(1<<hi) != 0, Salt: hex.EncodeToString([]byte(fmt.Sprintf("SALT%d-%x", ty, kgen.DetBytes(r.Seed(), lbl+"/s", 2))))}
 			if ty == 19 && j.et != ref.DES3 && j.et != ref.RC4 && (j.k%2 == 0) {
 				h.Params = fmt.Sprintf("%08x", 1+int(kgen.DetBytes(r.Seed(), lbl+"/p", 1)[0]))
 			}
 			c.Hints = append(c.Hints, h)
 		}
+		if j.other != 0 && j.otherAt == len(j.perm) {
+			c.Hints = append(c.Hints, Hint{Type: j.other, Salt: hex.EncodeToString(kgen.DetBytes(r.Seed(), lbl+"/o", 12))})
+		}
 		nt := ""
-		if len(j.perm) >= 2 {
+		if len(j.perm) >= 2 || (j.other != 0 && len(j.perm) >= 1) {
 			nt = "padata|" + lbl
 		}
 		saltless := "all-hints-carry-a-salt"
@@ -545,7 +616,21 @@ func TestProp(t *testing.T) {
 	})
 	r.Exhaustive("PA-data: all 16 ordered subsets of the three hint types x salt present/absent per ETYPE-INFO(2) entry x six etypes")
 
-	r.Rule("genkey: GenerateEncryptionKey and GenerateSeqNumberAndSubKey(GetKeyByteSize) for every etype: RFC key length, usable for encrypt/decrypt/checksum, decryptable by the reference")
+	defer func() {
+		// concurrent tier: the cases that held one at a time, evaluated 16 at once (shared state inside the library -
+		// a hash object, a table, a memo - shows as a wrong value or a panic only now)
+		r.Rule(fmt.Sprintf("concurrent: %d of the cases above (string-to-key with cheap parameters, DK, KDF, n-fold, random-to-key, PA-data) re-evaluated 16 at a time", len(pool)))
+		evid.Parallel(len(pool), 16, func(i int) {
+			v := Eval(pool[i])
+			if !v.OK && v.Sig != "harness" {
+				v.Sig = "concurrent:" + v.Sig
+				v.Msg = "while 16 derivations ran at once (the same case held when run alone): " + v.Msg
+			}
+			r.Count("", "kind:concurrent-"+pool[i].Kind)
+			r.Violation("s2k", pool[i], v)
+		})
+	}()
+	r.Rule("genkey: GenerateEncryptionKey, GenerateSeqNumberAndSubKey(GetKeyByteSize), the session key of messages.NewTicket and the subkey of kadmin.ChangePasswdMsg for every etype: RFC key length, usable for encrypt/decrypt/checksum, decryptable by the reference")
 	for _, et := range ref.ETypes {
 		for k := 0; k < r.N(8, 200); k++ {
 			c := Case{Kind: "genkey", EType: et, In: hex.EncodeToString(kgen.DetBytes(r.Seed(), fmt.Sprintf("gk/%d/%d", et, k), k%40))}
